@@ -88,6 +88,13 @@ def _cmp(entry, cfg, got, want, what, kind='value-differs-from-definition'):
     check(entry.equal(cfg, got, want), f'{kind}:{entry.name}', f'{what}: got {got!r}, definition gives {want!r}')
 
 
+# accumulators whose batch-by-batch feeding needs no extra configuration (the classification family needs a fixed vocabulary
+# and top-k retrieval has the recorded truncation finding: their batching behaviour is C01's subject)
+_BATCHED = {'Mean', 'MeanAndVariance', 'Var', 'MinMaxAndCount', 'Histogram', 'Counter', 'R2Tjur', 'R2TjurRelative', 'RRegression',
+            'SymmetricPredictionDifference', 'MeanState', 'TupleMeanState', 'TopKWordNGrams', 'PatternFrequency',
+            'CalibrationHistogram'}
+
+
 def run_accumulator(case):
   e = reg.BY_NAME[case['entry']]
   cfg, rows = case['cfg'], case['rows']
@@ -116,6 +123,22 @@ def run_accumulator(case):
     else:
       results.append(('update_state/get_result', e.norm(cfg, _guard(lambda: fn.get_result(state), f'{what}: get_result'))))
       results.append(('agg_fn(*inputs)', e.norm(cfg, _guard(lambda: fn(*args), f'{what}: direct call'))))
+  cuts = case.get('cuts')
+  if cuts and e.name in _BATCHED and len(rows) >= 2:
+    # the accumulator fed batch by batch equals the definition on all rows (the one-shot value)
+    bounds = [0] + sorted(min(c, len(rows)) for c in cuts) + [len(rows)]
+    parts = [rows[a:b] for a, b in zip(bounds, bounds[1:]) if b > a]
+    if 'metric' in e.apis:
+      m2 = _guard(lambda: e.make(cfg), f'constructing {what}')
+      for part in parts:
+        _guard(lambda: m2.add(*e.args(cfg, part)), f'{what}: add of batch {part}')
+      results.append((f'add in batches {parts}', e.norm(cfg, _guard(m2.result, f'{what}.result after batches {parts}'))))
+    if 'agg' in e.apis:
+      fn2 = _guard(lambda: e.agg(cfg), f'{what}.as_agg_fn')
+      st2 = fn2.create_state()
+      for part in parts:
+        st2 = _guard(lambda: fn2.update_state(st2, *e.args(cfg, part)), f'{what}: update_state with batch {part}')
+      results.append((f'update_state in batches {parts}', e.norm(cfg, _guard(lambda: fn2.get_result(st2), f'{what}: get_result after batches {parts}'))))
   if e.compare != 'sampler':
     want = e.ref(cfg, rows)
     for api, got in results:
@@ -132,7 +155,10 @@ def strat_accumulator(tier):
     e = draw(st.sampled_from(reg.ENTRIES))
     cfg = draw(e.cfg())
     rows = draw(st.lists(e.row(cfg), min_size=1, max_size=maxrows))
-    return {'entry': e.name, 'cfg': cfg, 'rows': rows}
+    case = {'entry': e.name, 'cfg': cfg, 'rows': rows}
+    if e.name in _BATCHED and len(rows) >= 2 and draw(st.booleans()):
+      case['cuts'] = draw(st.lists(st.integers(1, len(rows) - 1), min_size=1, max_size=3))
+    return case
   return s()
 
 
